@@ -13,17 +13,27 @@ see (the copy-on-write convention of ScheduleState is only a convention):
   snapAlias     `auto& s = snapshots.back()` / `auto& s : snapshots` (alias of a whole snapshot)
   constCast     any const_cast
   snapIndexR/W  `snapshots[<expr>]` with an index expression other than the current step (read / written)
+  snapOtherR/W  any other selection of a snapshot that is not the current one: `snapshots.front()`,
+                `.at(e)`, `.begin()`, `.end()[-k]`, `.rbegin()[k]`, `.data()`, `std::prev(snapshots.end(), k)`,
+                `*snapshots.begin()`, a range-for over `snapshots`, `snapshots == ..`; recv = the selector
+                (`front()`, `at(0)`, `begin()`, `all`, `compare`).  W = the selected snapshot is the receiver
+                of a mutating call chain / an assignment / std::swap|move, or is bound to a non-const
+                reference or pointer.  recv `alias:<selector>` / `copy:<selector>`: a mutating use (or a
+                non-const re-binding) of a name that was bound (as reference, pointer, iterator / as a copy)
+                to a non-current snapshot or to something inside it, within the scope of that name
+  snapContainer a mutation of the vector `snapshots` itself; recv = the method (`resize`, `erase`, `clear`,
+                `emplace_back`, ..), `operator=`, or `whole` (the vector passed on as a whole)
   globalWrite   a mutation of a Schedule data member other than `snapshots`
 
 and classifies the receiver (which snapshot): cur (the step being processed: state(),
 snapshots.back(), snapshots[currentStep|reportStep|report_step|timeStep], sched_state),
-all (a loop over every snapshot), other:<expr>.
+all (a loop over every snapshot), other:<expr>.  Everything that is not one of the `cur` forms is "other".
 
 The table is data only; `Props/C03.lean` proves `handlers_cow_safe` by `decide` over it against
 an explicit allow-list.  A new site (for instance a handler that binds `auto&` to
 `state().wells.get(..)` and mutates it) changes the table and makes that theorem fail.
 """
-import glob, os, re
+import bisect, glob, os, re
 from .common import TranslateError
 
 SCHED = "opm/input/eclipse/Schedule"
@@ -84,20 +94,454 @@ def receiver(expr, aliases):
         return "cur" if m.group(1) in CUR_INDEX else "other:" + m.group(1)
     if "snapshots.back()" in e or "state()" in e:
         return "cur"
+    m = re.search(r"snapshots\.(\w+)\(([^()]*)\)", e)
+    if m and m.group(1) in SNAP_ELEMENT | SNAP_ITER:
+        return "other:" + m.group(1) + "(" + m.group(2) + ")"
     for a, r in aliases.items():
         if re.search(r"\b" + re.escape(a) + r"\b", e):
             return r
     return "other:?"
 
 
+FUNCTION_HEADER = re.compile(r"^\s{0,4}(?:[\w:<>&\*,]+\s+)*((?:Schedule|HandlerContext)::(?:~?\w+|operator\s*(?:\(\)|\[\]|[^\s\w(]{1,3}))|handle\w+)\s*\(")
+
+
+def function_header(line):
+    """Name of the Schedule:: / HandlerContext:: method or handleXXX function whose definition starts on this line."""
+    if line.rstrip().endswith(";"):
+        return None
+    m = FUNCTION_HEADER.match(line)
+    return re.sub(r"\s+", "", m.group(1)) if m else None
+
+
 def enclosing_function(lines, i):
+    """Lambdas and nested blocks belong to the function they are written in: the search goes back
+    to the nearest definition header at namespace indentation."""
     for j in range(i, -1, -1):
-        if lines[j].rstrip().endswith(";"):
-            continue
-        m = re.match(r"^\s{0,4}(?:[\w:<>&\*,]+\s+)*((?:Schedule|HandlerContext)::~?\w+|handle\w+)\s*\(", lines[j])
-        if m:
-            return m.group(1)
+        fn = function_header(lines[j])
+        if fn:
+            return fn
     return "?"
+
+
+# ---- every use of the vector `snapshots` itself ------------------------------------------------
+#
+# The pass below works on the whole text of a file (comments and the contents of literals
+# blanked, positions preserved), so a statement may span any number of lines.
+
+SNAP_CUR = {"back"}                                             # snapshots.back() is the current step
+SNAP_NEUTRAL = {"size", "empty", "capacity", "max_size"}         # no snapshot selected
+SNAP_APPEND = {"emplace_back", "push_back", "reserve"}           # container level: append only
+SNAP_CONTAINER = {"resize", "erase", "clear", "pop_back", "insert", "assign", "swap", "emplace",
+                  "shrink_to_fit"}                              # container level: may drop / replace snapshots
+SNAP_ELEMENT = {"front", "at"}                                   # a reference to one snapshot
+SNAP_ITER = {"begin", "end", "cbegin", "cend", "rbegin", "rend", "crbegin", "crend", "data"}
+# calls whose value still denotes (an iterator / reference to) their first argument
+TRANSPARENT = {"", "std::prev", "std::next", "prev", "next", "std::ref", "std::addressof", "std::forward",
+               "std::launder", "std::to_address"}
+# calls that modify the object passed to them
+WRITE_CALLEES = {"std::swap", "swap", "std::move", "std::exchange", "std::iter_swap", "std::fill", "std::destroy_at"}
+# standard algorithms that only read the range they are given
+READONLY_CALLEES = {"std::" + n for n in ("distance", "find", "find_if", "find_if_not", "any_of", "all_of", "none_of", "count",
+                                         "count_if", "accumulate", "lower_bound", "upper_bound", "max_element",
+                                         "min_element", "is_sorted", "equal", "as_const", "cref", "size", "empty")}
+CONTROL_PAREN = {"if", "while", "for", "switch", "catch", "sizeof", "decltype", "alignof", "noexcept"}  # kw ( .. )
+GROUPING_KW = {"return", "else", "do", "throw", "case", "co_return", "co_yield"}     # kw (expr): a grouping parenthesis
+CONTROL = CONTROL_PAREN | GROUPING_KW
+NOT_A_TYPE = CONTROL | {"goto", "new", "delete", "typename", "using", "namespace", "operator"}
+# a method of this name called on (something inside) a snapshot is taken to modify it
+MUT_CALL = re.compile(r"(?:" + MUTATORS[3:-1] + r"|set\w*|del\w*|apply\w*|filter\w*|switch\w*|prepare\w*|remove\w*|rename\w*"
+                      r"|init\w*|assign|swap|pop_back|pop_front|push_front|operator=)$")
+ASSIGN_OP = re.compile(r"(=(?!=)|\+=|-=|\*=|/=|%=|\|=|&=(?!&)|\^=|<<=|>>=|\+\+|--)")
+BIND_RE = re.compile(
+    r"^\s*(?:else\s+)?(?:(?:for|if|while|switch)\s*\(\s*)?(?:(?:static|constexpr|thread_local|mutable)\s+)*"
+    r"(?P<c1>const\s+)?(?P<ty>(?:\w+\s*::\s*)*\w+(?:\s*<[^;{}=]*?>)?(?:\s*::\s*\w+)*)(?P<c2>\s+const\b)?"
+    r"(?:\s*(?P<rp>&&|&|\*)\s*(?P<c3>const\s+)?|\s+)(?P<name>[A-Za-z_]\w*)\s*(?P<op>=(?!=)|:(?!:))\s*(?P<rest>.*)$", re.S)
+ASSIGN_RE = re.compile(r"(?:^|[\s;{}()])(?P<lhs>(?:\*\s*)?(?:[A-Za-z_]\w*\s*(?:\.|->)\s*)*(?P<name>[A-Za-z_]\w*))\s*=(?!=)\s*(?P<rest>[^=]*)$", re.S)
+CAPTURE_RE = re.compile(r"\[(?:[^\[\]]*,)?\s*&\s*(?P<name>[A-Za-z_]\w*)\s*=\s*$", re.S)
+TERNARY_PREFIX = re.compile(r"(?:.*(?<!:)[?:](?!:)\s*)?", re.S)
+OBJ_PREFIX = re.compile(r"(?:(?:\bthis\s*->\s*)|(?:\b[A-Za-z_]\w*(?:\(\))?\s*(?:\.|->)\s*))+$")
+CLOSER = {"(": ")", "[": "]", "{": "}"}
+
+
+def blank_literals(src):
+    """Blank the contents of string / character literals, keeping every position."""
+    def blank(m):
+        t = m.group(0)
+        return t[0] + " " * (len(t) - 2) + t[-1]
+    return re.sub(r'"(?:\\.|[^"\\\n])*"|\'(?:\\.|[^\'\\\n]){1,4}\'', blank, src)
+
+
+def skip_ws(txt, j):
+    while j < len(txt) and txt[j].isspace():
+        j += 1
+    return j
+
+
+def match_close(txt, i, what):
+    """Index of the bracket closing txt[i]."""
+    stack = []
+    for j in range(i, min(len(txt), i + 20000)):
+        c = txt[j]
+        if c in "([{":
+            stack.append(c)
+        elif c in ")]}":
+            if not stack or CLOSER[stack.pop()] != c:
+                break
+            if not stack:
+                return j
+    raise TranslateError(f"{what}: unbalanced bracket")
+
+
+def stmt_start(txt, p):
+    """Start of the statement p lies in; the headers of enclosing brace-less `if (..)` / `for (..)` /
+    `while (..)` / `else` are not part of it."""
+    j = p - 1
+    while j >= 0 and txt[j] not in ";{}":
+        j -= 1
+    s0 = j + 1
+    for _ in range(20):
+        m = re.compile(r"\s*(?:(?:else|do)\b\s*)*(?:(?:if|for|while|switch)\s*(?:constexpr\s*)?(\())?").match(txt, s0)
+        if not m or m.end() == s0 or m.end() > p:
+            break
+        if m.group(1):
+            close = match_close(txt, m.end() - 1, "statement header")
+            if close >= p:
+                break
+            s0 = close + 1
+        else:
+            s0 = m.end()
+    return s0
+
+
+def stmt_end(txt, p):
+    j = p
+    while j < len(txt) and txt[j] not in ";{}":
+        j += 1
+    return j
+
+
+def open_bracket_before(txt, s0, lo):
+    """Innermost `(` / `[` that is open at lo, not looking further back than s0 (-1: none)."""
+    depth = 0
+    for j in range(lo - 1, s0 - 1, -1):
+        c = txt[j]
+        if c in ")]":
+            depth += 1
+        elif c in "([":
+            if depth == 0:
+                return j
+            depth -= 1
+    return -1
+
+
+def callee_before(txt, j):
+    """(name, start, is_method) of what is called by the `(` at j; name "" for a grouping parenthesis."""
+    e = j
+    while e > 0 and txt[e - 1].isspace():
+        e -= 1
+    if e > 0 and txt[e - 1] == ">":
+        return "<template>", e, False
+    k = e
+    while k > 0 and (txt[k - 1].isalnum() or txt[k - 1] in "_:"):
+        k -= 1
+    name = txt[k:e]
+    before = txt[:k].rstrip()
+    if name == "" and e > 0 and txt[e - 1] in ")]":
+        # `if (c) (expr)` is a grouping parenthesis, f(x)(..) / a[i](..) is a call
+        depth = 0
+        for b in range(e - 1, max(-1, e - 4000), -1):
+            if txt[b] in ")]":
+                depth += 1
+            elif txt[b] in "([":
+                depth -= 1
+                if depth == 0:
+                    if txt[b] == "(" and callee_before(txt, b)[0] in CONTROL_PAREN - {"sizeof", "decltype", "alignof", "noexcept"}:
+                        return "", e, False
+                    break
+        return "<call>", e, False
+    if name in GROUPING_KW:
+        return "", e, False
+    return name, k, before.endswith(".") or before.endswith("->")
+
+
+def parse_chain(txt, h):
+    """Follow `.m`, `->m`, `.m(args)`, `[i]` from h; returns (end, [(kind, name)])."""
+    items = []
+    while True:
+        j = skip_ws(txt, h)
+        if txt.startswith("->", j) or (txt.startswith(".", j) and not txt.startswith("..", j)):
+            j = skip_ws(txt, j + (2 if txt[j] == "-" else 1))
+            if txt.startswith("template ", j):
+                j = skip_ws(txt, j + 9)
+            m = re.compile(r"(?:operator\s*(?:=|\[\]|\(\)|->|\*)|~?[A-Za-z_]\w*)").match(txt, j)
+            if not m:
+                break
+            name, j = re.sub(r"\s+", "", m.group(0)), skip_ws(txt, m.end())
+            if j < len(txt) and txt[j] == "(":
+                h = match_close(txt, j, "call of " + name) + 1
+                items.append(("call", name))
+            else:
+                h = m.end()
+                items.append(("member", name))
+        elif j < len(txt) and txt[j] == "[":
+            h = match_close(txt, j, "index") + 1
+            items.append(("index", re.sub(r"\s+", "", txt[j + 1:h - 1])))
+        else:
+            break
+    return h, items
+
+
+def analyse(txt, s0, lo, hi, what):
+    """txt[lo:hi] denotes (a reference / pointer / iterator to) a snapshot or an object inside one, in
+    the statement starting at s0.  Follow its postfix chain - through dereferences, grouping
+    parentheses and iterator helpers - and report how the object is used."""
+    items, wrote, arg_of, addr, deref = [], None, None, False, False
+    for _ in range(12):
+        # unary * and & directly in front
+        while True:
+            k = lo
+            while k > s0 and txt[k - 1].isspace():
+                k -= 1
+            if k > s0 and txt[k - 1] in "*&" and not (k - 1 > s0 and txt[k - 2] == txt[k - 1] == "&"):
+                b = k - 1
+                while b > s0 and txt[b - 1].isspace():
+                    b -= 1
+                prev = txt[b - 1] if b > s0 else ";"
+                word = re.search(r"(\w+)$", txt[s0:b])
+                if (prev.isalnum() or prev in "_)]") and not (word and word.group(1) in CONTROL):
+                    break                               # binary operator (or `auto& x`, never directly in front)
+                if txt[k - 1] == "&":
+                    addr = True
+                else:
+                    deref = True
+                lo = k - 1
+            else:
+                break
+        hi, more = parse_chain(txt, hi)
+        items += more
+        j = skip_ws(txt, hi)
+        c = txt[j] if j < len(txt) else ";"
+        if c not in "),+-" or ASSIGN_OP.match(txt, j):
+            break
+        op = open_bracket_before(txt, s0, lo)
+        if op < 0 or txt[op] == "[":
+            break
+        name, k, method = callee_before(txt, op)
+        name = re.sub(r"\s+", "", name)
+        if name in WRITE_CALLEES and not method:
+            wrote = name
+        elif method or name not in TRANSPARENT:
+            if name not in CONTROL_PAREN:
+                arg_of = ("." if method else "") + name
+            break
+        lo, hi = k, match_close(txt, op, what) + 1
+    else:
+        raise TranslateError(f"{what}: expression nested too deeply")
+    j = skip_ws(txt, hi)
+    m = ASSIGN_OP.match(txt, j)
+    calls = [n for k, n in items if k == "call"]
+    mut = next((n for n in calls if MUT_CALL.match(n)), None)
+    ends = (txt[j] if j < len(txt) else ";") in ";:)]},?"
+    return {"lo": lo, "hi": hi, "items": items, "mut": mut, "assign": m.group(1) if m else None, "wrote": wrote,
+            "arg_of": arg_of, "addr": addr, "deref": deref, "ends": ends,
+            "bind": binding(txt, s0, lo, addr) if (ends and arg_of is None and not m and not mut) else None}
+
+
+def binding(txt, s0, lo, addr):
+    """Is the expression starting at lo the initialiser of a declaration / the right-hand side of an
+    assignment / a lambda init-capture?  Returns name, form (ref | ptr | val) and constness."""
+    head = txt[s0:lo]
+    m = CAPTURE_RE.search(head)
+    if m:
+        return {"name": m.group("name"), "form": "ref", "const": False, "decl": True}
+    m = BIND_RE.match(head)
+    if m and re.sub(r"\s+", "", m.group("ty")) not in NOT_A_TYPE and TERNARY_PREFIX.fullmatch(m.group("rest")):
+        rp = m.group("rp")
+        form = "ref" if rp in ("&", "&&") else "ptr" if (rp == "*" or addr) else "val"
+        const = bool(m.group("c1") or m.group("c2")) or (bool(m.group("c3")) and rp != "*")
+        return {"name": m.group("name"), "form": form, "const": const, "decl": True, "range": m.group("op") == ":"}
+    m = None
+    for m in ASSIGN_RE.finditer(head):
+        pass
+    if m and TERNARY_PREFIX.fullmatch(m.group("rest")) and m.group("name") not in NOT_A_TYPE:
+        name = m.group("name")
+        simple = re.sub(r"\s+", "", m.group("lhs")) == name
+        # constness from the declaration of the name, if it is a local declared a little earlier
+        decl = re.search(r"(const\s+)?[\w:]+(?:\s*<[^;{}]*>)?(\s+const)?\s*([&*])\s*" + re.escape(name) + r"\s*[;={]",
+                         txt[max(0, s0 - 4000):s0])
+        const = bool(simple and decl and (decl.group(1) or decl.group(2)))
+        return {"name": name, "form": "ptr" if addr else "val", "const": const, "decl": False, "simple": simple}
+    return None
+
+
+def scan_snapshots(txt, rel, emit, header_between=lambda a, b: False):
+    """Rows for every use of `snapshots` that is not a use of the current snapshot, and for every
+    mutating use of a name bound to a non-current snapshot.  Returns the alias list
+    [(name, recv, from, to)] for the line-oriented patterns of scan_file."""
+    blank = blank_literals(txt)
+    n_occ = 0
+    aliases = []                                   # dicts: name, sel, form, const, start, end
+
+    def where(p):
+        return f"{rel}:{txt.count(chr(10), 0, p) + 1}"
+
+    def scope_end(p):
+        """End of the innermost block that is open at p."""
+        depth = 0
+        for j in range(p, len(blank)):
+            if blank[j] == "{":
+                depth += 1
+            elif blank[j] == "}":
+                depth -= 1
+                if depth < 0:
+                    return j
+        return len(blank)
+
+    def body_end(k, what):
+        """End of the statement (simple or compound) that starts at k."""
+        while k < len(blank):
+            c = blank[k]
+            if c == "{":
+                return match_close(blank, k, what)
+            if c in ";}":
+                return k
+            k = match_close(blank, k, what) + 1 if c in "([" else k + 1
+        return len(blank)
+
+    def new_alias(b, sel, info, p, iterlike):
+        form = b["form"]
+        if form == "val":
+            form = "iter" if (iterlike and not info["deref"]) else "copy"
+        end_stmt = stmt_end(blank, info["hi"])
+        start, end = end_stmt, scope_end(end_stmt)
+        if b.get("range"):                         # for (T x : <expr>) body
+            op = open_bracket_before(blank, stmt_start(blank, p), p)
+            if op >= 0 and blank[op] == "(":
+                close = match_close(blank, op, where(p))
+                j = skip_ws(blank, close + 1)
+                start = close
+                end = body_end(j, where(p))
+        if not b["decl"]:
+            # assignment to an existing name: visible until the end of the function-level block
+            end = scope_end(end_stmt)
+            for _ in range(12):
+                wider = scope_end(end + 1) if end + 1 < len(blank) else len(blank)
+                if wider >= len(blank) or header_between(end, wider):
+                    break
+                end = wider
+        aliases.append({"name": b["name"], "sel": sel, "form": form, "const": b["const"], "start": start, "end": end})
+
+    def row_kind(sel_kind, sel, w):
+        if sel_kind == "index":
+            return ("snapIndexW" if w else "snapIndexR"), sel
+        return ("snapOtherW" if w else "snapOtherR"), sel
+
+    for m in re.finditer(r"\bsnapshots\b", blank):
+        p, q = m.start(), m.end()
+        n_occ += 1
+        s0 = stmt_start(blank, p)
+        pre = OBJ_PREFIX.search(blank[s0:p])
+        lo = s0 + pre.start() if pre else p
+        j = skip_ws(blank, q)
+        c = blank[j] if j < len(blank) else ";"
+        sel_kind = sel = None
+        iterlike = False
+        if c == "[":
+            close = match_close(blank, j, where(p))
+            idx = re.sub(r"\s+", "", txt[j + 1:close])
+            if idx in CUR_INDEX:
+                continue
+            sel_kind, sel, hi = "index", idx, close + 1
+        elif c == "." and not blank.startswith("..", j):
+            mm = re.compile(r"\.\s*(\w+)\s*\(").match(blank, j)
+            if not mm:
+                raise TranslateError(f"{where(p)}: `snapshots.` not followed by a method call")
+            name = mm.group(1)
+            close = match_close(blank, mm.end() - 1, where(p))
+            args = re.sub(r"\s+", "", txt[mm.end():close])
+            if name in SNAP_CUR:
+                if args:
+                    raise TranslateError(f"{where(p)}: snapshots.{name}({args})")
+                continue
+            if name in SNAP_NEUTRAL:
+                continue
+            if name in SNAP_APPEND or name in SNAP_CONTAINER:
+                emit(p, "snapContainer", name)
+                continue
+            if name in SNAP_ELEMENT or name in SNAP_ITER:
+                sel_kind, sel, hi = "method", f"{name}({args})", close + 1
+                iterlike = name in SNAP_ITER
+            else:
+                raise TranslateError(f"{where(p)}: snapshots.{name}(..): unknown use of the snapshot vector")
+        elif blank.startswith("->", j):
+            raise TranslateError(f"{where(p)}: snapshots-> : unknown use of the snapshot vector")
+        elif ASSIGN_OP.match(blank, j):
+            emit(p, "snapContainer", "operator=")
+            continue
+        else:
+            # the vector as a whole
+            before = blank[s0:lo].rstrip()
+            if blank.startswith("==", j) or blank.startswith("!=", j) or before.endswith("==") or before.endswith("!="):
+                emit(p, "snapOtherR", "compare")
+                continue
+            b = binding(blank, s0, lo, False) if c == ")" else None
+            if b and b.get("range"):
+                new_alias(b, "all", {"hi": q, "deref": True}, p, False)
+                emit(p, "snapOtherR" if (b["const"] or b["form"] != "ref") else "snapOtherW", "all")
+                continue
+            emit(p, "snapContainer", "whole")
+            continue
+        info = analyse(blank, s0, lo, hi, where(p))
+        b = info["bind"]
+        w = None
+        if info["mut"]:
+            w = info["mut"]
+        elif info["assign"] or info["wrote"]:
+            w = info["assign"] or info["wrote"]
+        elif b and b["form"] in ("ref", "ptr") and not b["const"]:
+            w = "bound"
+        elif info["arg_of"] and info["arg_of"] not in READONLY_CALLEES and \
+                (info["addr"] or not (info["items"] or info["arg_of"].startswith("."))):
+            w = "escapes"                              # f(&snapshots[k]..), f(snapshots.front()): callee unknown
+        kind, recv = row_kind(sel_kind, sel, w)
+        emit(p, kind, recv)
+        if b:
+            new_alias(b, ("[" + sel + "]") if sel_kind == "index" else sel, info, p, iterlike and not any(k == "index" for k, _ in info["items"]))
+
+    # uses of the names bound to a non-current snapshot (aliases of aliases are appended on the way)
+    done = 0
+    while done < len(aliases):
+        a = aliases[done]
+        done += 1
+        if done > 400:
+            raise TranslateError(f"{rel}: alias propagation does not terminate")
+        tag = ("copy:" if a["form"] == "copy" else "alias:") + a["sel"]
+        for m in re.compile(r"\b" + re.escape(a["name"]) + r"\b").finditer(blank, a["start"], a["end"]):
+            p, q = m.start(), m.end()
+            before = blank[:p].rstrip()
+            if before.endswith(".") or before.endswith("->") or before.endswith("::"):
+                continue
+            info = analyse(blank, stmt_start(blank, p), p, q, where(p))
+            b = info["bind"]
+            chained = bool(info["items"]) or info["deref"]
+            w = None
+            if info["mut"]:
+                w = info["mut"]
+            elif info["wrote"] and a["form"] != "copy":
+                w = info["wrote"]
+            elif info["assign"] and (chained or a["form"] == "ref"):
+                w = info["assign"]
+            elif b and b["form"] in ("ref", "ptr") and not b["const"] and b["name"] != a["name"]:
+                w = "bound"
+            elif info["addr"] and info["arg_of"] and not a["const"]:
+                w = "escapes"                          # v.push_back(&alias)
+            if w:
+                emit(p, "snapOtherW", tag)
+            if b and b["name"] != a["name"] and not any(x["name"] == b["name"] and x["start"] == stmt_end(blank, info["hi"]) for x in aliases):
+                new_alias(b, a["sel"], info, p, a["form"] == "iter" and not info["items"])
+    return n_occ, [(a["name"], "all" if a["sel"] == "all" else "other:" + a["sel"][1:-1] if a["sel"].startswith("[") else "other:" + a["sel"],
+                    a["start"], a["end"]) for a in aliases]
 
 
 def scan_file(path, rel):
@@ -105,20 +549,43 @@ def scan_file(path, rel):
     lines = src.split("\n")
     sites = []
     aliases = {}
+    line_start = [0]
+    for ln in lines:
+        line_start.append(line_start[-1] + len(ln) + 1)
 
     def add(i, kind, recv, detail):
         sites.append({"file": rel, "line": i + 1, "fn": enclosing_function(lines, i), "kind": kind,
                       "recv": recv, "detail": re.sub(r"\s+", " ", detail.strip())[:90]})
+
+    def emit(p, kind, recv):
+        i = bisect.bisect_right(line_start, p) - 1
+        detail = lines[i]
+        if ";" not in detail:
+            detail = src[line_start[i]:stmt_end(src, p) + 1]
+        if not any(s["line"] == i + 1 and s["kind"] == kind and s["recv"] == recv for s in sites):
+            add(i, kind, recv, detail)
+
+    # every use of `snapshots` itself, and of names bound to a non-current snapshot
+    def header_between(a, b):
+        la, lb = bisect.bisect_right(line_start, a) - 1, bisect.bisect_right(line_start, b) - 1
+        return any(function_header(lines[k]) for k in range(la + 1, min(lb, len(lines) - 1) + 1))
+
+    n_occ, scoped = scan_snapshots(src, rel, emit, header_between)
+    if rel == "Schedule.cpp" and n_occ < 40:
+        raise TranslateError(f"Schedule.cpp: only {n_occ} uses of `snapshots` seen")
 
     # statements may span lines: join a small window for the reference-binding patterns
     for i, line in enumerate(lines):
         stmt = line
         if "auto" in line and "&" in line and ";" not in line and ")" not in line[-3:]:
             stmt = " ".join(lines[i:i + 3])
+        # names bound to a non-current snapshot that are in scope on this line come first
+        view = {n: r for n, r, a, b in scoped if a <= line_start[i + 1] and line_start[i] < b}
+        view.update({n: r for n, r in aliases.items() if n not in view})
         # alias of a whole snapshot
         m = re.search(r"(?<!const )\bauto\s*&\s*(\w+)\s*=\s*(?:this->)?snapshots\s*(\.back\(\)|\[[^\]]*\])\s*;", stmt)
         if m:
-            r = receiver("snapshots" + m.group(2), aliases)
+            r = receiver("snapshots" + m.group(2), view)
             aliases[m.group(1)] = r
             add(i, "snapAlias", r, m.group(0))
             continue
@@ -130,16 +597,16 @@ def scan_file(path, rel):
         # non-const reference to an object behind a shared_ptr
         m = re.search(r"\bauto\s*&\s*(\w+)\s*=\s*([^;]*?\.(wells|groups|vfpprod|vfpinj)\s*\.\s*get\s*\([^;]*)\s*;", stmt)
         if m and not re.search(r"const\s+auto\s*&\s*" + m.group(1), stmt):
-            add(i, "refShared", receiver(m.group(2), aliases), m.group(0))
+            add(i, "refShared", receiver(m.group(2), view), m.group(0))
             continue
         m = re.search(r"for\s*\(\s*auto\s*&\s*(\w+)\s*:\s*([^)]*?\.(wells|groups|vfpprod|vfpinj)\s*\(\s*\))", stmt)
         if m and not re.search(r"const\s+auto\s*&", stmt):
-            add(i, "refShared", receiver(m.group(2), aliases), m.group(0))
+            add(i, "refShared", receiver(m.group(2), view), m.group(0))
             continue
         # chained call on the T& of a map_member: <snapshot>.wells.get(x).mutator(
         m = re.search(r"([\w\.\(\)\[\]>\-]*?(?:snapshots|state\(\)|sched_state)[^;=]*?)\.(wells|groups)\s*\.\s*get\s*\([^;()]*\)\s*\.\s*(\w+)\s*\(", stmt)
         if m and re.match(r"(update|set|add|del|apply|handle|filter|switch|prepare)", m.group(3)):
-            add(i, "refShared", receiver(m.group(1), aliases), m.group(0))
+            add(i, "refShared", receiver(m.group(1), view), m.group(0))
         # non-const references to by-value members
         for m in re.finditer(r"([\w\.\(\)\[\]>\-\s]*?)\.\s*(events|wellgroup_events|tuning|oilvap|geo_keywords|message_limits)\s*\(\s*\)\s*(\.\s*(\w+)\s*\(|;)", stmt):
             head = stmt[:m.start(2)]
@@ -148,7 +615,7 @@ def scan_file(path, rel):
             method = m.group(4) or ""
             isref = bool(re.search(r"(?<!const )auto\s*&\s*\w+\s*=\s*[^;]*$", head))
             if isref or re.match(r"(add\w*|clear\w*|reset|push_back|emplace\w*|update\w*)$", method):
-                add(i, "refValue", receiver(m.group(1) if m.group(1).strip() else head, aliases), stmt[max(0, m.start(1)):m.end()])
+                add(i, "refValue", receiver(m.group(1) if m.group(1).strip() else head, view), stmt[max(0, m.start(1)):m.end()])
         # in-place mutators of the WellConnections object *inside* a Well: a copied Well shares it
         # (Well's copy constructor copies the shared_ptr), so these write through to every
         # snapshot holding the same connections unless an independent copy was installed first
@@ -159,13 +626,6 @@ def scan_file(path, rel):
             add(i, "innerShared", "fresh" if fresh else "shared", m.group(2) + " on " + m.group(1))
         if "const_cast" in line:
             add(i, "constCast", "other:?", line)
-        for m in re.finditer(r"snapshots\s*\[\s*([^\]]+?)\s*\]", line):
-            idx = m.group(1).replace(" ", "")
-            if idx not in CUR_INDEX:
-                tail = line[m.end():]
-                mut = bool(re.match(r"\s*\.\s*(\w+\s*\.\s*)?(update\w*|" + MUTATORS + r")\s*\(", tail)) or \
-                    bool(re.search(r"(?<!const )auto\s*&\s*\w+\s*=\s*[^;]*$", line[:m.start()]))
-                add(i, "snapIndexW" if mut else "snapIndexR", idx, line)
         if rel.endswith("Schedule.cpp") or rel.endswith("HandlerContext.cpp"):
             for g in GLOBALS:
                 for m in re.finditer(r"(?:this->|schedule_\.)" + g + r"\b(\s*\[[^\]]*\])?\s*(=(?!=)|(?:\.|->)\s*" + MUTATORS + r"\s*\()", line):
@@ -174,6 +634,7 @@ def scan_file(path, rel):
                 if re.search(r"ScheduleGrid\s+\w+\s*\([^;]*\b" + g + r"\b", line) or \
                         re.search(r"(?<!const )auto\s*&\s*\w+\s*=\s*(?:this->|schedule_\.)" + g + r"\b", line):
                     add(i, "globalWrite", g, line)
+    sites.sort(key=lambda s: s["line"])                      # stable: rows of one line keep their order
     return sites
 
 
@@ -191,6 +652,12 @@ def generate(repo):
         raise TranslateError("no globalWrite / refValue site recognised: the scanner no longer understands the sources")
     if len(sites) < 40:
         raise TranslateError(f"only {len(sites)} sites recognised")
+    # `state()` is classified as the current snapshot: that is what it must be
+    hc = strip_comments_keep_lines(open(os.path.join(repo, SCHED, "HandlerContext.cpp")).read())
+    if not re.search(r"ScheduleState\s*&\s*HandlerContext::state\s*\(\s*\)\s*\{\s*return\s+schedule_\s*\.\s*snapshots\s*\[\s*currentStep\s*\]\s*;\s*\}", hc):
+        raise TranslateError("HandlerContext::state() is no longer `return schedule_.snapshots[currentStep];`")
+    if not any(s["kind"] == "snapContainer" and s["recv"] in SNAP_APPEND and s["fn"].startswith("Schedule::create_") for s in sites):
+        raise TranslateError("no append to `snapshots` seen in Schedule::create_first / create_next")
     out = ["/- GENERATED by translate/handlers.py from opm/input/eclipse/Schedule/{Schedule,HandlerContext,*KeywordHandlers}.cpp — do not edit. -/",
            "namespace OpmVerif.Gen.HandlerEffects", "",
            "structure Site where", "  file : String", "  fn : String", "  kind : String", "  recv : String", "  detail : String",
@@ -216,5 +683,5 @@ if __name__ == "__main__":
     for k, v in sorted(c.items()):
         print(v, k)
     for s in r["_sites"]:
-        if s["kind"] in ("refShared", "constCast", "globalWrite", "snapAlias", "innerShared") or s["kind"] == "snapIndexW" or (s["kind"] == "refValue" and s["recv"] != "cur"):
+        if s["kind"] in ("refShared", "constCast", "globalWrite", "snapAlias", "innerShared", "snapIndexW", "snapOtherW", "snapContainer") or (s["kind"] == "refValue" and s["recv"] != "cur"):
             print(s["file"], s["line"], s["fn"], s["kind"], s["recv"], "|", s["detail"])
